@@ -182,6 +182,8 @@ func reorder(t *rapid.T, m map[uint32]uint32, absent []uint32, maxW uint32) []pa
 
 var stCanon = stats.New("canonical")
 
+var hugeSets int
+
 // TestC12Canonical: every construction path and insertion order of the same non-zero pairs
 // gives the same canonical set, and RLP encode/decode preserves it.
 func TestC12Canonical(t *testing.T) {
@@ -292,6 +294,55 @@ func TestC12Canonical(t *testing.T) {
 			checkSet(t, L("Copy() after the original's builder was changed"), cp, want, absent)
 		}
 
+		// the equal-weight constructor with a list of IDs in which some are repeated: the result is the set of the
+		// distinct IDs
+		if len(want) > 0 {
+			ew := uint32(rapid.IntRange(1, 9).Draw(t, "equalWeight"))
+			var eids []idx.ValidatorID
+			var ewant []pair
+			em := map[uint32]uint32{}
+			for _, e := range l2 {
+				if e.W == 0 {
+					continue
+				}
+				eids = append(eids, idx.ValidatorID(e.ID))
+				if rapid.IntRange(0, 3).Draw(t, "repeatID") == 0 {
+					eids = append(eids, idx.ValidatorID(e.ID))
+				}
+				em[e.ID] = ew
+			}
+			if uint64(len(em))*uint64(ew) <= maxTotal && len(em) > 0 {
+				ewant = canon(em)
+				var eabsent []uint32
+				for _, id := range all {
+					if _, ok := em[id]; !ok {
+						eabsent = append(eabsent, id)
+					}
+				}
+				checkSet(t, L("EqualWeightValidators(%v, %d)", eids, ew), pos.EqualWeightValidators(eids, pos.Weight(ew)), ewant, eabsent)
+			}
+		}
+		// very large sets (an encoding of 64 KiB and more) still round-trip
+		if rapid.IntRange(0, 3999).Draw(t, "hugeSet") == 7 {
+			hn := rapid.IntRange(6000, 14000).Draw(t, "hugeMembers")
+			hids := make([]idx.ValidatorID, hn)
+			for i := range hids {
+				hids[i] = idx.ValidatorID(1000 + 3*i)
+			}
+			hv := pos.EqualWeightValidators(hids, 1)
+			henc, err := rlp.EncodeToBytes(hv)
+			if err != nil {
+				t.Fatalf("encoding a set of %d validators: %v", hn, err)
+			}
+			var hdec pos.Validators
+			if err := rlp.DecodeBytes(henc, &hdec); err != nil {
+				t.Fatalf("decoding the %d-byte encoding of a set of %d validators: %v", len(henc), hn, err)
+			}
+			if int(hdec.Len()) != hn || uint64(hdec.TotalWeight()) != uint64(hn) || hdec.GetIdx(hids[hn-1]) != hv.GetIdx(hids[hn-1]) {
+				t.Fatalf("a set of %d validators does not survive encoding and decoding (%d bytes): got %d members, total %d", hn, len(henc), hdec.Len(), hdec.TotalWeight())
+			}
+			hugeSets++
+		}
 		// RLP: both orders encode identically; decoding gives the same set in the same order
 		enc1, err := rlp.EncodeToBytes(v1)
 		if err != nil {
@@ -395,6 +446,10 @@ func TestC12Canonical(t *testing.T) {
 		}
 		if !l2sorted {
 			classes = append(classes, "second_order_not_canonical")
+		}
+		if hugeSets > 0 {
+			stCanon.Class("huge_set_round_trips", int64(hugeSets))
+			hugeSets = 0
 		}
 		stCanon.Case(stats.Hash(ops, l2, path2), ties, classes...)
 		stCanon.Sample(func() interface{} {
